@@ -7,7 +7,7 @@ from ..spec import to_statechart
 
 PROP = 'C10'
 LEVEL = 'fault_enumeration'
-BUDGET = {'quick': 1100, 'thorough': 3200}
+BUDGET = {'quick': 2200, 'thorough': 6400}
 RULE = ('cases = monitored well-formed chart with logging probes, send (with delays) and notify + '
         'input history; a recording listener is attached first, then a recording property '
         'statechart (internal transition per meta-event name, action appends (name, time, '
